@@ -248,6 +248,18 @@ def _run(V, work, tier):
     sessions.append(("two-definitions", ["(defun helper () 1)\n(probe 'first (helper))\n", "(defun helper () 2)\n", "(defun outer () (helper))\n(probe 'r (outer))\n"], False, None))
     sessions.append(("quote-form-packages", ["(in-package (quote pa))\n(defun helper (v) (+ v 1))\n(export 'entry)\n(defun entry (v) (helper v))\n", "(in-package (quote pb))\n(defun helper (v) (+ v 2))\n(export 'entry2)\n(defun entry2 (v) (helper v))\n",
                                              "(in-package (quote pa))\n(defmacro wrap (expr) (quasiquote (helper (unquote expr))))\n(defun outer (value) (wrap value))\n(probe 'r (outer 41) (pb:entry2 1))\n"], False, None))
+    # one file defines a private function, ANOTHER file calls it and also has a kept or renamed local of the same name
+    # (a parameter, a let variable, a local function, a lambda parameter, a loop variable), used before or after the call
+    LIBF = "(defun total (xs) (foldl + 0 xs))\n(defun helper (v) (* v 2))\n"
+    clash = {"param": "(defun describe (total) (list 'is total (helper total)))", "let": "(defun describe (v) (let ((total (+ v 1)) (helper 5)) (list total helper)))",
+             "flet": "(defun describe (v) (flet ((total (q) (list 'local q)) (helper (q) q)) (list (total v) (helper v))))", "lambda": "(defun describe (v) (funcall (lambda (total helper) (list total helper)) v 2))",
+             "dotimes": "(defun describe (v) (let ((acc ())) (dotimes (total 2) (set! acc (cons total acc))) acc))"}
+    for kind, dfn in clash.items():
+        for order in (0, 1):
+            uses = ["(probe 'global (total '(1 2 3)) (helper 4))", "(probe 'local (describe 7))"]
+            body = [dfn] + (uses if order == 0 else uses[::-1]) if order == 0 else uses[:1] + [dfn] + uses[1:]
+            sessions.append(("clash-%s%d" % (kind, order), [LIBF, "\n".join(body) + "\n"], False, None))
+            sessions.append(("clash1-%s%d" % (kind, order), [LIBF + "\n".join(body) + "\n"], False, None))
     # the SAME programs cut into two files at a top-level boundary (one minify session over both files): what one file
     # defines and the other mentions - through a call, a macro body, a local macro, a template, a set - must keep meeting
     base = list(sessions)
